@@ -241,6 +241,24 @@ impl WTClient {
         self.dbm.load_appointment_receipt(tower_id, locator)
     }
 
+    /// Checks whether an appointment is already accounted for a given tower, either as accepted (there is a receipt for it),
+    /// pending or invalid.
+    pub fn has_appointment(&self, tower_id: TowerId, locator: Locator) -> bool {
+        let in_memory = match self.towers.get(&tower_id) {
+            Some(tower) => {
+                tower.pending_appointments.contains(&locator)
+                    || tower.invalid_appointments.contains(&locator)
+            }
+            None => false,
+        };
+
+        in_memory
+            || self
+                .dbm
+                .load_appointment_receipt(tower_id, locator)
+                .is_some()
+    }
+
     /// Adds a pending appointment to the tower record.
     pub fn add_pending_appointment(&mut self, tower_id: TowerId, appointment: &Appointment) {
         if let Some(tower) = self.towers.get_mut(&tower_id) {
